@@ -83,6 +83,11 @@ func (w *liWorld) open(r *Run, fresh bool) {
 				SELECT CASE WHEN (SELECT n FROM verif_fault) - 1 = (SELECT target FROM verif_fault) THEN RAISE(FAIL,'verif fault') END; END;`, ti, t))
 			must(err)
 		}
+		// faults on the first row of each of Reorg's three deletes (modes 3, 4, 5)
+		for mode, t := range map[int]string{3: "block", 4: "l1_info_root", 5: "rollup_exit_root"} {
+			_, err = w.ctl.Exec(fmt.Sprintf(`CREATE TRIGGER verif_fd_%d BEFORE DELETE ON %s WHEN (SELECT armed FROM verif_fault)=%d BEGIN SELECT RAISE(ABORT,'verif fault'); END;`, mode, t, mode))
+			must(err)
+		}
 	}
 }
 
@@ -345,7 +350,7 @@ func (w *liWorld) exec(r *Run, line string) string {
 			k, mode = k-1000, 2 // count the block / leaf / batch / initial rows only
 		}
 		_, err := w.ctl.Exec(`UPDATE verif_fault SET armed=$1, target=$2, n=0`, mode, k)
-		must(err)
+		mustUnlocked(r, w.lines, "L1 info store", err)
 		if away != "" {
 			_, err = w.ctl.Exec(fmt.Sprintf(`ALTER TABLE %s RENAME TO %s_verif_away`, away, away))
 			must(err)
@@ -382,9 +387,37 @@ func (w *liWorld) exec(r *Run, line string) string {
 			r.Emit(plain, obs)
 		}
 		return obs
-	case "reorg":
+	case "reorg", "reorgF":
 		b := bigOf(ws[1]).Uint64()
-		obs = liErr(w.p.Reorg(ctx, b))
+		if ws[0] == "reorgF" {
+			// the first row of one of Reorg's deletes cannot be removed: the driver gets an error and calls Reorg again
+			mode := map[string]int{"block": 3, "inforoot": 4, "rolluproot": 5}[ws[2]]
+			tbl, col := map[int]string{3: "block", 4: "l1_info_root", 5: "rollup_exit_root"}[mode], map[int]string{3: "num", 4: "block_num", 5: "block_num"}[mode]
+			var nrows int
+			must(w.ctl.QueryRow(fmt.Sprintf("SELECT COUNT(*) FROM %s WHERE %s >= $1", tbl, col), b).Scan(&nrows))
+			_, e1 := w.ctl.Exec(`UPDATE verif_fault SET armed=$1`, mode)
+			mustUnlocked(r, w.lines, "L1 info store", e1)
+			err := w.p.Reorg(ctx, b)
+			if err == nil && nrows > 0 {
+				r.Fail(fmt.Sprintf("[C04,C07,C08] Reorg(%d) of the L1 info store reported success although its delete of the %d row(s) of %s failed: the reorg is half done and the driver will not retry it", b, nrows, tbl),
+					append([]string{"new"}, w.lines...))
+			}
+			_, e2 := w.ctl.Exec(`UPDATE verif_fault SET armed=0`)
+			mustUnlocked(r, w.lines, "L1 info store (after Reorg)", e2)
+			if err != nil {
+				r.Emit(line, liErr(err))
+				r.Count("branch:reorg-fault-hit")
+				return liErr(err)
+			}
+			obs = "ok"
+		} else {
+			obs = liErr(w.p.Reorg(ctx, b))
+		}
+		{
+			// whatever the reorg removed (possibly nothing), its transaction must be over
+			_, e := w.ctl.Exec(`UPDATE verif_fault SET armed=0`)
+			mustUnlocked(r, w.lines, "L1 info store (after Reorg)", e)
+		}
 		var ks []string
 		var kn []uint64
 		for i, n := range w.survNums {
